@@ -938,7 +938,54 @@ def resolve_attr(pk, mod, chain):
   return o
 
 
+def run_reference_only_order(ctx):
+  """Two configurables registered by their own modules' decorators (modules `P.alpha` and `P.sub.alpha`: the same last component), never
+  imported by the config and never bound: they occur only inside VALUES. The config string has to add imports for both; which of the two
+  gets the plain alias must not depend on the order in which the bindings were made, and the text re-parses to the same bindings."""
+  import gin
+  from gin import config as gc
+  pk = own_tree().new_package('c6r')
+  importlib.import_module(pk + '.alpha')
+  importlib.import_module(pk + '.sub.alpha')
+  ctx.bucket('dyn:reference-only-configurables-in-equally-named-modules')
+  texts = []
+  for order in (0, 1):
+    gin.clear_config()
+    gin.parse_config('from __gin__ import dynamic_registration\nimport %s.sub.gamma\n%s.sub.gamma.fg.x = 1\n' % (pk, pk))
+    sel = gc._inverse_lookup(resolve_attr(pk, 'sub.gamma', 'fg')).selector
+    binds = [(('sc', sel, 'x'), '@custom_%s()' % pk), (('sc', sel, 'ref'), '[@subcustom_%s(), 2]' % pk)]
+    for key, val in (binds if order == 0 else binds[::-1]):
+      gin.bind_parameter(key, gc.parse_value(val))
+    try:
+      texts.append(gin.config_str())
+    except Exception as e:  # pylint: disable=broad-except
+      ctx.check(False, 'config-str-raises', 'reference-only configurables: config_str() raised %s: %s' % (type(e).__name__, str(e)[:300].replace(pk, 'PK')))
+      gin.clear_config()
+      return
+  ctx.count('permutations_compared')
+  ctx.count('oracle_evals')
+  ctx.check(texts[0] == texts[1], 'text-depends-on-binding-order', 'dynamic registration, two configurables that occur only in values: config_str differs '
+            'between the two orders of the same two bindings:\n--- order A\n%s\n--- order B\n%s' % (texts[0].replace(pk, 'PK'), texts[1].replace(pk, 'PK')))
+  before = {k: {a: repr(v) for a, v in d.items()} for k, d in gc._CONFIG.items() if d}
+  gin.clear_config()
+  try:
+    gin.parse_config(texts[1])
+    after = {k: {a: repr(v) for a, v in d.items()} for k, d in gc._CONFIG.items() if d}
+    fg = gin.get_configurable(resolve_attr(pk, 'sub.gamma', 'fg'))
+    with gin.config_scope('sc'):
+      got = fg()
+    ctx.check(after == before and got[1:] == ((pk + '.alpha.decorated', 0), [(pk + '.sub.alpha.decorated', 0), 2]), 'roundtrip-differs',
+              'reference-only configurables: after re-parsing config_str() the bindings are %r (before %r), the scoped call received %r\n%s' % (
+                  after, before, got, texts[1].replace(pk, 'PK')))
+  except Exception as e:  # pylint: disable=broad-except
+    ctx.check(False, 'roundtrip-parse-failed', 'reference-only configurables: re-parsing config_str() raised %s: %s\n%s' % (
+        type(e).__name__, str(e)[:300].replace(pk, 'PK'), texts[1].replace(pk, 'PK')))
+  gin.clear_config()
+
+
 def run_dyn2(ctx, case):
+  if ctx.case_no % 4 == 0:
+    run_reference_only_order(ctx)
   import gin
   from gin import config as gc
   ensure_consts()
